@@ -1,8 +1,221 @@
+/-
+Driver mode c19: libdialect graph decompositions (harness/c19.cpp).
+  kind peel  : run the proven checker `peelOk` on the C++ output (SPECFAIL), compare canonical
+               output with the models `peel` (degree based, theorems) and `peelB` (explicit
+               buckets) (DIVERGE), then check the symmetric layout boxes (SPECFAIL).
+  kind comps : `componentsOk` on the C++ output (SPECFAIL), exact comparison with `getConnComps`.
+  kind plan  : planarised graph: original nodes present, no two edges cross (exact rational
+               arithmetic on node centres), every original adjacency realised by a chain of
+               new nodes (SPECFAIL). Validator only.
+-/
 import Driver.Proto
+import AdaptaVerif.Model.Peel
+import AdaptaVerif.Check.GraphParts
 namespace Driver.C19
+open Driver AdaptaVerif.Num AdaptaVerif.Model.Peel AdaptaVerif.Check.GraphParts
 
-def run (_args : List String) : IO UInt32 := do
-  IO.eprintln "driver mode c19: not implemented yet"
-  return 2
+def natsOf (ts : Array String) (start : Nat := 0) : List Nat :=
+  ((ts.extract start ts.size).toList).map nat!
+
+def edgeLe (a b : Nat × Nat) : Bool := a.1 < b.1 || (a.1 == b.1 && a.2 ≤ b.2)
+def sortEdges (l : List (Nat × Nat)) : List (Nat × Nat) := l.mergeSort edgeLe
+
+/-- lines `<key> <idx> …` grouped: the payload (after idx) of every line with that idx -/
+def linesFor (c : Case) (key : String) (idx : Nat) : List (Array String) :=
+  ((c.get key).toList.filter (fun l => l.size > 0 && nat! l[0]! == idx)).map (fun l => l.extract 1 l.size)
+
+def inputGraph (c : Case) : List Nat × List (Nat × Nat) :=
+  let ns := natsOf ((c.get1 "n").getD #[])
+  let es := (c.get "e").toList.map (fun l => (nat! l[0]!, nat! l[1]!))
+  (sortNat ns, es)
+
+structure CTree where
+  t : TreeOut
+  size : Nat
+  flagged : List Nat
+  deriving Inhabited
+
+def readTrees (c : Case) : List CTree :=
+  (c.get "tree").toList.map (fun l =>
+    let i := nat! l[0]!
+    let ns := match linesFor c "tn" i with | [a] => natsOf a | _ => []
+    let es := (linesFor c "te" i).map (fun a => (nat! a[0]!, nat! a[1]!))
+    let fl := match linesFor c "troots" i with | [a] => natsOf a | _ => []
+    { t := ⟨ns, es, nat! l[1]!⟩, size := nat! l[2]!, flagged := fl })
+
+def canonTree (t : TreeOut) : List Nat × List (Nat × Nat) × Nat := (sortNat t.nodes, sortEdges t.edges, t.root)
+
+def parseBoxes (c : Case) (i : Nat) : Option (List Box) :=
+  (linesFor c "box" i).mapM (fun a => do
+    let x ← num? a[1]!; let X ← num? a[2]!; let y ← num? a[3]!; let Y ← num? a[4]!
+    pure { id := nat! a[0]!, x := x, X := X, y := y, Y := Y })
+
+def checkPeel (c : Case) : CaseResult := Id.run do
+  let (ns, es) := inputGraph c
+  if !simpleB ns es then return { verdict := .diverge "harness produced a non-simple input graph" }
+  if !connectedB ns es then return { verdict := .diverge "harness produced a disconnected peel input" }
+  let coreN := match linesFor c "core_n" 0 with | [a] => natsOf a | _ => []
+  let coreE := (linesFor c "core_e" 0).map (fun a => (nat! a[0]!, nat! a[1]!))
+  let coreRoots := natsOf ((c.get1 "core_roots").getD #[])
+  let ctrees := readTrees c
+  let trees := ctrees.map (·.t)
+  let mut stats : List (String × Nat) := [("peel.nodes", ns.length), ("peel.trees", trees.length),
+      ("peel.core." ++ (if coreN.isEmpty then "empty" else if coreN.length == 1 then "single" else "proper"), 1)]
+  -- 1. the property itself, by the proven checker, on the C++ output
+  if !peelOk ns es trees coreN coreE then
+    -- name the failing clause
+    let tparts := trees.map (·.nodes)
+    let msg :=
+      if !ns.all (fun v => partsWith tparts v ≤ 1 && (coreN.contains v || partsWith tparts v == 1)) then
+        s!"node partition fails (node {ns.find? (fun v => !(partsWith tparts v ≤ 1 && (coreN.contains v || partsWith tparts v == 1)))})"
+      else if !trees.all (fun t => isTree t.nodes t.edges) then
+        s!"a peeled tree is not a tree (root {(trees.find? (fun t => !isTree t.nodes t.edges)).map (·.root)})"
+      else if !coreNoDegreeOne coreN coreE then
+        s!"core has a node of degree one ({coreN.find? (fun v => degree coreE v == 1)})"
+      else if !es.all (fun e => edgeCount (coreE :: trees.map (·.edges)) e == 1) then
+        s!"edge partition fails (edge {es.find? (fun e => edgeCount (coreE :: trees.map (·.edges)) e != 1)})"
+      else if !trees.all (fun t => t.nodes.contains t.root && (coreN.isEmpty || t.nodes.all (fun v => coreN.contains v == (v == t.root)))) then
+        "tree root is not exactly the node shared with the core"
+      else "part contains foreign/duplicate nodes or edges"
+    return { verdict := .specfail s!"peel: {msg}", stats := stats }
+  -- 2. correspondence with the model(s)
+  match peel ns es, peelB ns es with
+  | some m, some mb =>
+    let cm := m.trees.map canonTree
+    let cb := mb.trees.map canonTree
+    let cc := trees.map canonTree
+    if cm != cb || sortNat m.coreNodes != sortNat mb.coreNodes || sortEdges m.coreEdges != sortEdges mb.coreEdges then
+      return { verdict := .diverge "bucket model peelB differs from degree model peel", stats := stats }
+    if sortNat m.coreNodes != sortNat coreN then
+      return { verdict := .diverge s!"core nodes: impl {sortNat coreN} model {sortNat m.coreNodes}", stats := stats }
+    if sortEdges m.coreEdges != sortEdges coreE then
+      return { verdict := .diverge s!"core edges: impl {sortEdges coreE} model {sortEdges m.coreEdges}", stats := stats }
+    if cm != cc then
+      return { verdict := .diverge s!"trees: impl {cc} model {cm}", stats := stats }
+    -- Tree::size() (directed reachability from the root) and the isRoot flags
+    for (ct, mt) in ctrees.zip m.trees do
+      if ct.size != treeSize mt then
+        return { verdict := .diverge s!"Tree::size {ct.size} vs model {treeSize mt} (root {mt.root})", stats := stats }
+      if ct.flagged != [mt.root] then
+        return { verdict := .diverge s!"isRoot flags in tree {ct.flagged} vs root {mt.root}", stats := stats }
+    let expectRoots := if coreN.isEmpty then [] else sortNat (m.trees.map (·.root))
+    if sortNat coreRoots != expectRoots then
+      return { verdict := .diverge s!"isRoot flags in core {coreRoots} vs tree roots {expectRoots}", stats := stats }
+    stats := ("peel.stems", m.stems.length) :: stats
+    if m.coreNodes.isEmpty then stats := ("peel.branch.doubleCentre", 1) :: stats
+    if m.coreNodes.length == 1 && !m.stems.isEmpty then stats := ("peel.branch.singleCentre", 1) :: stats
+    -- 3. symmetric layout: no two node boxes of a tree overlap
+    let mut nboxes := 0
+    for i in [0:trees.length] do
+      match parseBoxes c i with
+      | none => return { verdict := .specfail s!"layout of tree {i}: non-finite coordinate", stats := stats }
+      | some bs =>
+        nboxes := nboxes + bs.length
+        if bs.length != (trees.getD i default).nodes.length then
+          return { verdict := .diverge s!"layout of tree {i}: {bs.length} boxes for {(trees.getD i default).nodes.length} nodes", stats := stats }
+        if bs.any (fun b => !(b.x < b.X && b.y < b.Y)) then
+          return { verdict := .specfail s!"layout of tree {i}: degenerate box", stats := stats }
+        match firstOverlap bs with
+        | some (a, b) => return { verdict := .specfail s!"symmetricLayout: boxes of nodes {a} and {b} overlap (tree {i})", stats := stats }
+        | none => pure ()
+    stats := ("layout.boxes", nboxes) :: stats
+    return { verdict := .ok, nontrivial := !m.stems.isEmpty, stats := stats }
+  | _, _ => return { verdict := .diverge "model ran out of fuel", stats := stats }
+
+def readComps (c : Case) : List Comp :=
+  let k := nat! (((c.get1 "ncomps").getD #["0"])[0]!)
+  (List.range k).map (fun i =>
+    let ns := match linesFor c "cn" i with | [a] => natsOf a | _ => []
+    let es := (linesFor c "ce" i).map (fun a => (nat! a[0]!, nat! a[1]!))
+    ⟨ns, es⟩)
+
+def checkComps (c : Case) : CaseResult := Id.run do
+  let (ns, es) := inputGraph c
+  if !simpleB ns es then return { verdict := .diverge "harness produced a non-simple input graph" }
+  let cs := readComps c
+  let stats : List (String × Nat) := [("comps.nodes", ns.length), ("comps.parts", cs.length)]
+  if !componentsOk ns es cs then
+    return { verdict := .specfail s!"getConnComps: output is not the partition into connected components ({cs.length} parts)", stats := stats }
+  match getConnComps ns es with
+  | none => return { verdict := .diverge "model ran out of fuel", stats := stats }
+  | some ms =>
+    let cm := ms.map (fun c => (sortNat c.nodes, sortEdges c.edges))
+    let cc := cs.map (fun c => (sortNat c.nodes, sortEdges c.edges))
+    if cm != cc then return { verdict := .diverge s!"components: impl {cc} model {cm}", stats := stats }
+    return { verdict := .ok, nontrivial := cs.length > 1, stats := stats }
+
+def rpt? (a b : String) : Option (Rat × Rat) := do
+  let x ← num? a; let y ← num? b; pure (x, y)
+
+def lcmNat (a b : Nat) : Nat := if a == 0 || b == 0 then 1 else a / Nat.gcd a b * b
+
+/-- scale a rational by the common denominator `L` (exact: `L` is a multiple of `r.den`) -/
+def scaleR (L : Nat) (r : Rat) : Int := r.num * ((L / r.den : Nat) : Int)
+
+def checkPlan (c : Case) : CaseResult := Id.run do
+  let orig := (c.get "pn").toList.map (fun l => nat! l[0]!)
+  let origE := (c.get "pe").toList.map (fun l => (nat! l[0]!, nat! l[1]!))
+  -- planarised graph, exact rational positions
+  let mut qnR : List (Nat × (Rat × Rat)) := []
+  for l in c.get "qn" do
+    match rpt? l[1]! l[2]! with
+    | some p => qnR := (nat! l[0]!, p) :: qnR
+    | none => return { verdict := .specfail "planarise: non-finite node position" }
+  -- routed input, exact rational route points
+  let mut routes : List (List (Rat × Rat)) := []
+  for l in c.get "pe" do
+    let coords := (l.extract 2 l.size).toList
+    let rec pts : List String → List (Rat × Rat)
+      | a :: b :: rest => (match rpt? a b with | some p => [p] | none => []) ++ pts rest
+      | _ => []
+    routes := pts coords :: routes
+  -- common denominator of every coordinate of the case; scaling by it keeps all predicates
+  let L := (qnR.map (·.2) ++ routes.flatten).foldl (fun acc p => lcmNat (lcmNat acc p.1.den) p.2.den) 1
+  let toP (p : Rat × Rat) : P2 := ⟨scaleR L p.1, scaleR L p.2⟩
+  let qn := qnR.map (fun (v, p) => (v, toP p))
+  let qE := (c.get "qe").toList.map (fun l => (nat! l[0]!, nat! l[1]!))
+  let pos (v : Nat) : Option P2 := qn.lookup v
+  let mut stats : List (String × Nat) := [("plan.nodes", orig.length), ("plan.edges", origE.length),
+      ("plan.qnodes", qn.length), ("plan.qedges", qE.length)]
+  -- crossings between route segments of the input (for the non-triviality rule)
+  let mut rsegs : List Seg := []
+  let mut eid := 0
+  for ps in routes do
+    let ps := ps.map toP
+    for (a, b) in ps.zip (ps.drop 1) do
+      rsegs := { u := eid, v := eid, a := a, b := b } :: rsegs
+    eid := eid + 1
+  let inCross := countCrossings rsegs
+  stats := ("plan.inputCrossings", inCross) :: stats
+  -- 1. every original node still present
+  match orig.find? (fun v => (pos v).isNone) with
+  | some v => return { verdict := .specfail s!"planarise: original node {v} missing", stats := stats }
+  | none => pure ()
+  -- 2. no two edges cross
+  let mut segs : List Seg := []
+  for e in qE do
+    match pos e.1, pos e.2 with
+    | some a, some b => segs := { u := e.1, v := e.2, a := a, b := b } :: segs
+    | _, _ => return { verdict := .specfail s!"planarise: edge {e} has an end that is not a node", stats := stats }
+  match firstConflict false segs with
+  | some (s, t) => return { verdict := .specfail s!"planarise: edges {s.u}-{s.v} and {t.u}-{t.v} cross", stats := stats }
+  | none => pure ()
+  -- ... nor touch / overlap anywhere but at a shared end node (planar straight-line drawing)
+  match firstConflict true segs with
+  | some (s, t) => return { verdict := .specfail s!"planarise: edges {s.u}-{s.v} and {t.u}-{t.v} touch or overlap away from a shared end node", stats := stats }
+  | none => pure ()
+  -- 3. every original adjacency realised by a chain of new nodes
+  match adjacencyKept orig origE qE with
+  | some e => return { verdict := .specfail s!"planarise: adjacency {e.1}-{e.2} not realised by a chain of new nodes", stats := stats }
+  | none => pure ()
+  return { verdict := .ok, nontrivial := inCross > 0, stats := stats }
+
+def run (_args : List String) : IO UInt32 :=
+  runCases (fun c =>
+    match (c.get1 "kind").map (fun a => a[0]!) with
+    | some "peel" => checkPeel c
+    | some "comps" => checkComps c
+    | some "plan" => checkPlan c
+    | _ => { verdict := .diverge "unknown case kind" })
 
 end Driver.C19
